@@ -59,7 +59,7 @@ Section Reraise.
 
   Definition raises (e : event) : bool :=
     match mv, e with
-    | Some f, EVisit p k v => match f p k v with None => true | Some _ => false end
+    | Some f, EVisit p k _ v => match f p k v with None => true | Some _ => false end
     | _, _ => false
     end.
   Definition clean (lg : list event) : bool := forallb (fun e => negb (raises e)) lg.
@@ -115,12 +115,12 @@ Section Reraise.
     intros st ky v Hc. unfold visit_phase, call_visit, lift, total. destruct mv as [f|] eqn:Emv.
     - destruct (f (pth st) ky (erase v)) as [a|] eqn:F.
       + left. split; [reflexivity|].
-        assert (Hc' : clean (lg st ++ [EVisit (pth st) ky (erase v)]) = true).
+        assert (Hc' : clean (lg st ++ [EVisit (pth st) ky (oref_of v) (erase v)]) = true).
         { rewrite clean_app, Hc. cbn. unfold raises. rewrite Emv, F. reflexivity. }
-        assert (He : extends (lg st) (lg st ++ [EVisit (pth st) ky (erase v)])) by (eexists; reflexivity).
+        assert (He : extends (lg st) (lg st ++ [EVisit (pth st) ky (oref_of v) (erase v)])) by (eexists; reflexivity).
         intros l Hl. destruct (apply_action oval a ky v); [destruct (nis st) as [|[p0 acc] r]|];
           cbn in Hl; inversion Hl; subst; split; assumption.
-      + right. exists (EVisit (pth st) ky (erase v)). split; [unfold raises; rewrite Emv, F; reflexivity|].
+      + right. exists (EVisit (pth st) ky (oref_of v) (erase v)). split; [unfold raises; rewrite Emv, F; reflexivity|].
         split; [reflexivity|].
         cbn [apply_action]. destruct (nis st) as [|[p0 acc] r]; reflexivity.
     - left. split; [reflexivity|]. intros l Hl.
@@ -135,7 +135,7 @@ Section Reraise.
     end.
   Proof.
     intros it rest st Hc.
-    assert (Hne : forall e, (forall p k v, e <> EVisit p k v) -> clean (lg st ++ [e]) = true).
+    assert (Hne : forall e, (forall p k r v, e <> EVisit p k r v) -> clean (lg st ++ [e]) = true).
     { intros e He. rewrite clean_app, Hc. cbn. unfold raises. destruct mv; [|reflexivity].
       destruct e; try reflexivity. exfalso. eapply He. reflexivity. }
     assert (Hex : forall e, extends (lg st) (lg st ++ [e])) by (intro e; eexists; reflexivity).
